@@ -294,11 +294,17 @@ def run_describe(case, ctx):
 # ------------------------------------------------------------------- relocate
 name_part = st.one_of(
     st.sampled_from(["moved", "a b", "données", "数据", " lead", "trail ",
-                     "x.y", "d-1", "ümlaut dir"]),
+                     "x.y", "d-1", "ümlaut dir",
+                     # ordinary directory names as far as the file system is
+                     # concerned (no user of that name exists)
+                     "~archive 2024 (old)", "~verif-no-such-user", "$HOME",
+                     "%TEMP%", "-n"]),
     st.text(alphabet=st.characters(blacklist_characters="/\x00",
                                    blacklist_categories=("Cs",)),
             min_size=1,
-            max_size=6).filter(lambda s: s not in (".", "..")))
+            max_size=6).filter(
+                # ("~" / "~user" mean a home directory to the library)
+                lambda s: s not in (".", "..") and not s.startswith("~")))
 
 
 @st.composite
